@@ -106,7 +106,7 @@ def run(ctx):
             ok = what in MAPPING_API
         ctx.ob('T19b', up.fq, 'mappings are recognised by a probe every Mapping answers (`%s`)' % what, ok, loc=loc(up, pr))
     if not probes:
-        ctx.ob('T19b', up.fq, 'update() distinguishes mappings from iterables of keys', False, loc=up.loc)
+        ctx.unknown('T19b', up.fq, 'no mapping probe (getattr/hasattr/isinstance on the argument) found', up.loc)
     # the mapping branch iterates (key, count) pairs and adds count times
     w, paths = paths_of(prog, up, recv=ci)
     for p in paths:
@@ -188,7 +188,7 @@ def run(ctx):
                         ({txt(cond.left), txt(cond.comparators[0])} & bucket_names):
                     preds.append((cond, var, f2))
     if not preds:
-        ctx.ob('T7.compact', add.fq, 'compaction filters the count map by a predicate on the current bucket', False, loc=add.loc)
+        ctx.unknown('T7.compact', add.fq, 'no filter predicate comparing with the current bucket found', add.loc)
     for cond, vname, f2 in preds:
         t = txt(cond)
         both = ('sum(%s)' % vname) in t or (('%s[0]' % vname) in t and ('%s[1]' % vname) in t)
